@@ -185,8 +185,9 @@ SArray.__neg__ = lambda s: _ufunc(numpy.negative, '__call__', (s,), None, {})
 SArray.__pos__ = lambda s: s
 SArray.__abs__ = lambda s: _ufunc(numpy.absolute, '__call__', (s,), None, {})
 SArray.__invert__ = lambda s: _ufunc(numpy.logical_not, '__call__', (s,), None, {})
-SArray.__matmul__ = lambda s, o: numpy.matmul(s, o)
-SArray.__rmatmul__ = lambda s, o: numpy.matmul(o, s)
+SArray.__matmul__ = lambda s, o: HANDLED[numpy.matmul](s, o)
+SArray.__rmatmul__ = lambda s, o: HANDLED[numpy.matmul](o, s)
+SArray.__divmod__ = lambda s, o: (s // o, s % o)
 SArray.__hash__ = None
 
 def _vec(f, nin=1):
@@ -286,6 +287,8 @@ def _prep(x, kind=None):
     return arr.astype(object), kind_of_dtype(arr.dtype)
 
 def _ufunc(ufunc, method, inputs, out, kw):
+    if ufunc is numpy.matmul and method == '__call__': return HANDLED[numpy.matmul](*inputs)
+    if ufunc is numpy.divmod and method == '__call__': return (_ufunc(numpy.floor_divide, method, inputs, None, kw), _ufunc(numpy.remainder, method, inputs, None, kw))
     if ufunc not in UFT:
         raise Unsupported(f'ufunc {ufunc.__name__}')
     f, krule = UFT[ufunc]
@@ -500,7 +503,51 @@ def _sum(a, axis=None, dtype=None, out=None, keepdims=False, **kw):
     r = numpy.add.reduce(a, axis=axis)
     return r
 @handles(numpy.prod)
-def _prod(a, axis=None, **kw): return numpy.multiply.reduce(SArray.wrap(a), axis=axis)
+def _prod(a, axis=None, **kw):
+    a = SArray.wrap(a)
+    if a.kind == 'b': a = a.astype(NPDT['i'])
+    return numpy.multiply.reduce(a, axis=axis)
+@handles(numpy.size)
+def _size(a, axis=None): return a.size if axis is None else a.shape[axis]
+@handles(numpy.vdot)
+def _vdot(a, b):
+    a, b = SArray.wrap(a).ravel(), SArray.wrap(b).ravel()
+    return numpy.sum(numpy.conjugate(a) * b)
+@handles(numpy.matmul)
+def _matmul(a, b):
+    a, b = SArray.wrap(a), SArray.wrap(b)
+    if a.ndim == 1 and b.ndim == 1: return numpy.einsum('i,i->', a, b)
+    if a.ndim == 1: return numpy.einsum('i,...ij->...j', a, b)
+    if b.ndim == 1: return numpy.einsum('...ij,j->...i', a, b)
+    return numpy.einsum('...ij,...jk->...ik', a, b)
+@handles(numpy.compress)
+def _compress(condition, a, axis=None):
+    a = SArray.wrap(a)
+    idx, = numpy.nonzero(numpy.asarray(condition, dtype=bool))
+    return numpy.take(a, idx, axis=axis)
+@handles(numpy.cross)
+def _cross(a, b, axisa=-1, axisb=-1, axisc=-1, axis=None):
+    a, b = SArray.wrap(a), SArray.wrap(b)
+    if axis is not None or axisa != -1 or axisb != -1 or axisc != -1 or a.shape[-1] != 3 or b.shape[-1] != 3: raise Unsupported('cross variant')
+    a, b = numpy.broadcast_arrays(a, b)
+    return numpy.stack([a[..., 1] * b[..., 2] - a[..., 2] * b[..., 1], a[..., 2] * b[..., 0] - a[..., 0] * b[..., 2], a[..., 0] * b[..., 1] - a[..., 1] * b[..., 0]], axis=-1)
+@handles(numpy.interp)
+def _interp(x, xp, fp, left=None, right=None, period=None):
+    if period is not None: raise Unsupported('interp period')
+    x = SArray.wrap(x); xp = numpy.asarray(xp, dtype=float); fp = numpy.asarray(fp, dtype=float)
+    left = fp[0] if left is None else left; right = fp[-1] if right is None else right
+    def f(v):
+        if is_concrete(v): return float(numpy.interp(v, xp, fp, left, right))
+        t = lift(v).cast('f')
+        r = lift(float(right))
+        # numpy: x > xp[-1] -> right ; x == xp[-1] -> fp[-1] ; segments [xp[i], xp[i+1]) linear ; x < xp[0] -> left
+        r = _ite((t == float(xp[-1])).t, lift(float(fp[-1])), r)
+        for i in range(len(xp) - 2, -1, -1):
+            slope = (fp[i + 1] - fp[i]) / (xp[i + 1] - xp[i])
+            seg = lift(float(fp[i])) + (t - float(xp[i])) * float(slope)
+            r = _ite((t < float(xp[i + 1])).t, seg, r)
+        return _ite((t < float(xp[0])).t, lift(float(left)), r)
+    return SArray(_vec(f)(x.a), 'f')
 @handles(numpy.any)
 def _any(a, axis=None, **kw): return numpy.logical_or.reduce(SArray.wrap(a), axis=axis)
 @handles(numpy.all)
